@@ -28,6 +28,7 @@ import shutil
 import tempfile
 import time
 from fractions import Fraction
+from pathlib import Path
 
 import numpy as np
 import torch
@@ -234,25 +235,26 @@ def canon_model(lines: list[str], ops: list[str]) -> list[str]:
 
 def private_driver(chk: Check) -> None:
     """other checks rebuild `driver` in the shared lake workspace while this one runs (the executable
-    disappears for a moment during relinking): work on a private copy taken once"""
+    disappears for a moment while it is relinked): work on a private copy taken once"""
     if getattr(chk.driver, "_c10_private", False):
         return
+    shared = chk.driver.exe
     for _ in range(30):
+        fd, tmp = tempfile.mkstemp(prefix="c10_driver_")
+        os.close(fd)
         try:
-            fd, tmp = tempfile.mkstemp(prefix="c10_driver_")
-            os.close(fd)
-            shutil.copy2(chk.driver.exe, tmp)
+            shutil.copy2(shared, tmp)
             os.chmod(tmp, 0o755)
-            if chk.driver.__class__(  # smoke test of the copy
-            ).__class__ and os.path.getsize(tmp) > 0:
-                from pathlib import Path
-                chk.driver.exe = Path(tmp)
+            chk.driver.exe = Path(tmp)
+            if chk.driver.run(["reset", "nstep len"]) == ["ok", "bad-op"]:
                 chk.driver._c10_private = True
                 atexit.register(lambda: os.path.exists(tmp) and os.unlink(tmp))
-                if chk.driver.run(["reset"]) == ["ok"]:
-                    return
+                return
         except (OSError, InfraError):
             pass
+        chk.driver.exe = shared
+        if os.path.exists(tmp):
+            os.unlink(tmp)
         time.sleep(2)
     raise InfraError("C10: could not take a private copy of the driver executable")
 
